@@ -84,3 +84,13 @@ package actionlint
 //@ func (*Command).Main
 //@   props C15
 //@   at_return (err != nil ==> result == ExitStatusFailure) && (err == nil && len(errs) > 0 ==> result == ExitStatusSuccessProblemFound) && (err == nil && len(errs) == 0 ==> result == ExitStatusSuccessNoProblem)
+
+// C15: a project only claims files below its root directory (so the configuration applied to a file
+// is the one of the repository that contains it)
+//@ func (*Project).Knows
+//@   props C15 C10
+//@   ensures result ==> hasprefix(abspath(path), p.root)
+//@ spec abspath(p: string): string
+//@ func absPath
+//@   ensures result == abspath(path)
+//@   trusted filepath.Abs is a function of the path while the working directory is fixed during a run
